@@ -384,3 +384,12 @@ Definition orphaned_since (t : thmap) (sid : N) : option N := aget sid (ot_orpha
    boundary: exactly [old_age_ns] back counts too, except for id 32767) *)
 Definition old_ids (t : thmap) (now : N) : list N :=
   map fst (filter (fun e => is_old (now - old_age_ns) (snd e, fst e)) (ot_orphans (th_ot t))).
+
+(* ---------------------------------------------------------------- Part 10: the runner's skew as a relation *)
+(* [skew tr obs]: [obs] is [tr] with submissions moved earlier and outcomes moved later, by any
+   number of adjacent swaps (ESub before the event in front of it, EDone behind the event after it). *)
+Inductive skew : list ev -> list ev -> Prop :=
+| skew_refl l : skew l l
+| skew_sub l1 x m l2 : skew (l1 ++ x :: ESub m :: l2) (l1 ++ ESub m :: x :: l2)
+| skew_done l1 m o x l2 : skew (l1 ++ EDone m o :: x :: l2) (l1 ++ x :: EDone m o :: l2)
+| skew_trans l l' l'' : skew l l' -> skew l' l'' -> skew l l''.
